@@ -194,6 +194,10 @@ class Qasm3Transformer:
         if isinstance(expression, Identifier):
             if expression.name in variable_map:
                 value = variable_map[expression.name]
+                if isinstance(value, np.bool_):  # elements of classical arrays are numpy scalars
+                    value = bool(value)
+                elif isinstance(value, np.integer):
+                    value = int(value)
                 if isinstance(value, int):
                     return IntegerLiteral(value)
                 if isinstance(value, float):
